@@ -102,6 +102,97 @@ def parse_race_logs(pattern):
     return res
 
 
+def _z(x):
+    x = int(x)
+    return str(x) if x >= 0 else "(%d)" % x
+
+
+def _zl(s):
+    return "[" + "; ".join(_z(x) for x in s.split(",") if x not in ("", "-")) + "]"
+
+
+def coq_op(tok):
+    p = tok.split(":")
+    n = lambda x: "%s%%nat" % int(x)
+    k = p[0]
+    m = {
+        "nn": lambda: "Mut (MNewNode %s %s %s)" % (_z(p[1]), _z(p[2]), n(p[3])),
+        "nb": lambda: "Mut (MNewBus %s %s)" % (_z(p[1]), _zl(p[2])),
+        "ne": lambda: "Mut MNewEnum",
+        "nm": lambda: "Mut (MNewMsg %s %s %s %s %s)" % (_z(p[1]), _z(p[2]), _z(p[3]), _z(p[4]), _zl(p[5])),
+        "ms": lambda: "Mut (MMsgSetSender %s %s %s)" % (n(p[1]), n(p[2]), n(p[3])),
+        "mc": lambda: "Mut (MMsgSetStatic %s %s)" % (n(p[1]), _z(p[2])),
+        "ba": lambda: "Mut (MBusAssignAttr %s %s)" % (n(p[1]), _z(p[2])),
+        "at": lambda: "Mut (MNodeAttach %s %s %s)" % (n(p[1]), n(p[2]), n(p[3])),
+        "rn": lambda: "Mut (MNodeRename %s %s)" % (n(p[1]), _z(p[2])),
+        "aa": lambda: "Mut (MNodeAssignAttr %s %s)" % (n(p[1]), _z(p[2])),
+        "ra": lambda: "Mut (MNodeRemoveAttr %s %s)" % (n(p[1]), _z(p[2])),
+        "er": lambda: "Mut (MEnumAddRef %s %s %s)" % (n(p[1]), _z(p[2]), "None" if p[3] == "-" else "(Some %s)" % _z(p[3])),
+        "av": lambda: "Mut (MEnumAddValue %s %s %s)" % (n(p[1]), _z(p[2]), _z(p[3])),
+        "rv": lambda: "Mut (MEnumRemoveValue %s %s)" % (n(p[1]), _z(p[2])),
+        "ri": lambda: "Mut (MEnumReindex %s %s %s)" % (n(p[1]), _z(p[2]), _z(p[3])),
+        "Rga": lambda: "Ro (RNodeGetAttr %s %s)" % (n(p[1]), _z(p[2])),
+        "Rgv": lambda: "Ro (REnumGetValue %s %s)" % (n(p[1]), _z(p[2])),
+        "Rnf": lambda: "Ro (RNodeFields %s)" % n(p[1]),
+        "Rna": lambda: "Ro (RNodeAttrs %s)" % n(p[1]),
+        "Rns": lambda: "Ro (RNodeString %s)" % n(p[1]),
+        "Rev": lambda: "Ro (REnumValues %s)" % n(p[1]),
+        "Rez": lambda: "Ro (REnumSize %s)" % n(p[1]),
+        "Res": lambda: "Ro (REnumString %s)" % n(p[1]),
+        "Rbf": lambda: "Ro (RBusFields %s)" % n(p[1]),
+        "Rbn": lambda: "Ro (RBusNodes %s)" % n(p[1]),
+        "Rbl": lambda: "Ro (RBusLookup %s %s)" % (n(p[1]), _z(p[2])),
+        "Rsm": lambda: "Ro (RSentMsgs %s %s)" % (n(p[1]), n(p[2])),
+        "Rms": lambda: "Ro (RMsgSignals %s)" % n(p[1]),
+        "Rmc": lambda: "Ro (RMsgCanID %s)" % n(p[1]),
+        "Rld": lambda: "Ro (RBusLoad %s)" % n(p[1]),
+    }
+    return m[k]()
+
+
+def vm_cross_check(ctx, cases, limit=40):
+    """Thorough tier: a sample of the recorded histories is re-evaluated INSIDE Coq (vm_compute on
+    Acme.C18.Model.replay, the very definitions the theorems are about; no extraction, no OCaml)
+    against what the implementation was observed to do."""
+    rows = []
+    with open(cases) as f:
+        for i, line in enumerate(f):
+            if i % 97 != 0:
+                continue
+            ops, obs = [], []
+            for item in line.split():
+                tok, o = item.split("=", 1)
+                res, nh, eh = o.split("|")
+                ops.append(coq_op(tok))
+                ehs = "[" + "; ".join("None" if x == "-" else "Some %s" % _z(x) for x in eh.split(",") if x != "") + "]"
+                obs.append("(%s, (%s, %s))" % (_zl(res), _zl(nh), ehs))
+            rows.append("([%s],\n  [%s])" % ("; ".join(ops), "; ".join(obs)))
+            if len(rows) >= limit:
+                break
+    if not rows:
+        return 0, "no cases"
+    src = """From Coq Require Import ZArith List Bool.
+From Acme.C18 Require Import Model.
+Import ListNotations.
+Open Scope Z_scope.
+Fixpoint leqb {A} (e : A -> A -> bool) (a b : list A) : bool :=
+  match a, b with [], [] => true | x :: a', y :: b' => e x y && leqb e a' b' | _, _ => false end.
+Definition oeqb (a b : option Z) := match a, b with None, None => true | Some x, Some y => Z.eqb x y | _, _ => false end.
+Definition obs_eqb (a b : list Z * (list Z * list (option Z))) :=
+  leqb Z.eqb (fst a) (fst b) && leqb Z.eqb (fst (snd a)) (fst (snd b)) && leqb oeqb (snd (snd a)) (snd (snd b)).
+Definition cases : list (list op * list (list Z * (list Z * list (option Z)))) := [
+%s ].
+Definition M := Eval vm_compute in (map (fun c => leqb obs_eqb (replay init (fst c)) (snd c)) cases).
+Print M.
+""" % ";\n".join(rows)
+    path = os.path.join(ctx.scratch, "c18_cases.v")
+    open(path, "w").write(src)
+    rc, out = vlib.sh(["coqc", "-R", vlib.COQ, "Acme", "-w", "-notation-overridden", path], cwd=ctx.scratch, timeout=900)
+    if rc != 0:
+        return -1, out[-800:]
+    return out.count("false"), "vm_compute cross-check of %d histories: %d disagree" % (len(rows), out.count("false"))
+
+
 def run_phase(exe, phase, ctx, out, extra_env, timeout):
     env = vlib.goenv()
     env.update({"VERIF_PHASE": phase, "VERIF_OUT": out, "VERIF_SEED": str(ctx.seed), "VERIF_SCRATCH": ctx.scratch})
@@ -190,7 +281,7 @@ def run(ctx):
         # the race runtime exits with 66 when it reported races: those are handled below
         if rc not in (0, 66):
             m = re.search(r"(panic|fatal error): [^\n]*", log)
-            msg = re.sub(r"/\S*/", "", re.sub(r"0x[0-9a-f]+", "0x?", m.group(0)))[:80] if m else ""
+            msg = re.sub(r"\S+\.dbc", "<file>.dbc", re.sub(r"/\S*/", "", re.sub(r"0x[0-9a-f]+", "0x?", m.group(0))))[:80] if m else ""
             ctx.violation("%s-run-failed%s" % (k.rstrip("0123456789"), (":" + msg) if m else ""),
                           "phase %s of the harness died (rc=%d): %s" % (k, rc, log[-700:]), {"phase": k, "log": log[-3000:]}, found_input=bool(m))
 
@@ -290,6 +381,11 @@ def run(ctx):
         "panics / errors of read-only operations that occur identically in the sequential run belong to other properties (C16/D32, C04/D19) and are only counted",
     ]
     if ctx.tier == "thorough":
+        nbad, msg = vm_cross_check(ctx, cases) if os.path.exists(cases) else (-1, "no cases file")
+        ctx.coverage["vm_compute_cross_check"] = msg
+        if nbad != 0 and not found_any:
+            ctx.violation("c18-correspondence-vm", "histories re-evaluated inside Coq (vm_compute) disagree with the implementation: " + msg,
+                          {"correspondence": "vm_compute cross-check"}, found_input=False)
         ok, chk = vlib.coqchk(PID)
         ctx.coverage["coqchk"] = "ok" if ok else "FAILED"
         ctx.coverage["coqchk_tail"] = chk[-1500:]
